@@ -86,6 +86,13 @@ CLAIMS = {
         note=TB + 'Any source up to 1 MiB (object-size bound). That the bytes skipWhitespace consumes are only whitespace or comment bodies is proved as "stops at first non-trivia"/"no newline in a comment", '
              'not as a full classification of every skipped byte.',
         ref='DESIGN.md §4 C15'),
+    'C16': dict(
+        text='Kernel only: full-domain proof (every ValueType pair, every Visibility, arbitrary class hierarchy as an uninterpreted relation) of the analyser\'s compatibility kernel against the relation the property states: '
+             'matchesPrimitive (equal, int->long, unknown), numericPromotion, isAccessible (public always; private owner only; protected owner or subclass), isAssignableType and conversionCost (accept => same primitive / widening / same class or subclass / '
+             'null only for class references / same array type; a class or array value never converts to a primitive), and the accept/reject decision of the initialiser site (validateTypedInitializer region).',
+        note=TB + 'Generic type-parameter paths are excluded by precondition; class names are interned identities; typeEquals / isSubclassOf / inheritanceDistance are stubs. NOT covered: that each rule is invoked in every syntactic position '
+             '(~60 visitor methods) - in particular the argument, assignment and return sites compare primitive tags themselves and (observed by the native oracle) still accept a class value for a primitive; final / access / void / static-context rules.',
+        ref='DESIGN.md §4 C16'),
     'C20': dict(
         text='Proof of the updater decision logic: parseSemVer (unbounded string length up to 64 bytes, loop contracts on both loops) never raises, is valid only if the first component is a number, '
              'and each component is the std::stoi value of a maximal digit run in order; compareSemVer equals the sign of the numeric lexicographic order over all 2^192 pairs (lemmas: antisymmetric, transitive, '
